@@ -303,3 +303,7 @@ Proof. intros A Hwf F x s. exact (sqrt_study_real A (wf_sign_hyps A Hwf) F x s).
 Print Assumptions C19_exp_series_limit.
 Print Assumptions C19_exp_power_series.
 Print Assumptions C19_sqrt_study_real.
+
+(* ---- source pins: the functions whose hand-written model carries the theorems above are still, textually (after
+   ast normalisation), the functions the model was validated against; an edit breaks Bridge/Pins_C19.v ---- *)
+From KV Require Bridge.Pins_C19.
